@@ -1,4 +1,5 @@
 import RcVerif.Lemmas.PoolBan
+import RcVerif.Gen.Tables
 /-
   Property theorems over the pool / ban model (`Model/PoolBan.lean`): `Pool.Get` with dial FAILURES, `Release`,
   `Close`, `SetIsSlave`, and `getConn`'s ban bookkeeping with the retry of `OnCReact`. Histories = every list of
@@ -16,6 +17,13 @@ namespace RcVerif.PoolBan
 /-- the invariant holds in every reachable state -/
 theorem pool_inv_reachable (m : Nat) (rep : Bool) (ops : List Op) : Inv (run (init m rep) ops) :=
   inv_run (inv_init m rep) ops
+
+/-- the constants the model carries are those the code has NOW (regenerated from `getConn` and `Pool.Get` on every
+    run): the ban order is capped at 5 by `>= 5` / `= 5`, a ban lasts `1 << order` retry periods, `Pool.Get` dials
+    while `count < maxActive` -/
+theorem pool_constants_are_modelled :
+    Gen.banOrderCap = 5 ∧ Gen.banOrderCapAssigned = 5 ∧ Gen.banDoubles = true ∧ Gen.poolDialWhile = "<" :=
+  ⟨rfl, rfl, rfl, rfl⟩
 
 /-! ### C15 -/
 
@@ -348,6 +356,106 @@ theorem C15_serve_total (s : St) (isRead : Bool) :
           · simp [serve, hr, deliver, hx, hg] at hs
           · simp [serve, hr, deliver, hx, hg] at hs ⊢
             subst hs; exact hopen
+
+/-! ### connections only ever go from open to closed -/
+
+theorem getConn_ext (s : St) (isRead : Bool) : Ext s.conns (getConn s isRead).1.conns := by
+  unfold getConn; simp only
+  have h0 : (if routePool s isRead = 1 then updPool s 1 (fun pl => { pl with flag := false }) else s).conns = s.conns := by
+    split
+    · exact updPool_conns _ _ _
+    · rfl
+  generalize (if routePool s isRead = 1 then updPool s 1 (fun pl => { pl with flag := false }) else s) = s0 at h0
+  cases hg : get s0 (routePool s isRead) with
+  | mk u r =>
+    have he := get_ext hg
+    rw [h0] at he
+    cases r with
+    | none => simp only; rw [updPool_conns]; exact he
+    | some c => simp only; rw [updPool_conns]; exact he
+
+theorem request_ext (s : St) (isRead : Bool) : Ext s.conns (request s isRead).1.conns := by
+  have h1 := getConn_ext s isRead
+  unfold request
+  split
+  · next s1 c _ heq => rw [heq] at h1; exact h1
+  · next s1 heq =>
+    rw [heq] at h1
+    have h2 := getConn_ext s1 isRead
+    split
+    · next s2 c _ heq2 => rw [heq2] at h2; exact h1.trans h2
+    · next s2 _ heq2 => rw [heq2] at h2; exact h1.trans h2
+  · next s1 heq => rw [heq] at h1; exact h1
+
+theorem step_ext (s : St) (op : Op) : Ext s.conns (step s op).conns := by
+  cases op with
+  | get p => exact get_ext (s' := (get s p).1) (r := (get s p).2) rfl
+  | lose c => exact ext_modify _ c
+  | vanish c => exact ext_vanish _ c
+  | setDial p ok =>
+    show Ext s.conns (setDial s p ok).conns
+    unfold setDial; cases s.pools[p]? <;> exact Ext.refl _
+  | release p => exact release_ext s p
+  | close p =>
+    show Ext s.conns (close s p).conns
+    unfold close
+    cases hl : s.pools[p]? with
+    | none => exact Ext.refl _
+    | some pl =>
+      simp only
+      split
+      · exact Ext.refl _
+      · have := release_ext s p
+        cases (release s p).pools[p]? <;> exact this
+  | setSlave p b =>
+    show Ext s.conns (setIsSlave s p b).conns
+    unfold setIsSlave
+    cases hl : s.pools[p]? with
+    | none => exact Ext.refl _
+    | some pl =>
+      simp only
+      split
+      · exact Ext.refl _
+      · exact release_ext (setPool s p { pl with isSlave := b }) p
+  | req r => exact (request_ext s r).trans (serve_ext s r)
+
+theorem run_ext (s : St) (ops : List Op) : Ext s.conns (run s ops).conns := by
+  induction ops generalizing s with
+  | nil => exact Ext.refl _
+  | cons op rest ih => exact (step_ext s op).trans (ih (step s op))
+
+/-- a connection that is closed stays closed through every later history - a lost connection is never revived,
+    and (with `C15_get_never_closed`) never handed out again -/
+theorem C15_dead_stays_dead (s : St) (c : Nat) (hc : c < s.conns.length) (h : isOpen s.conns c = false)
+    (ops : List Op) : isOpen (run s ops).conns c = false :=
+  closed_stays_closed (run_ext s ops) hc h
+
+theorem C15_dead_never_returned (s : St) (c : Nat) (hc : c < s.conns.length) (h : isOpen s.conns c = false)
+    (ops : List Op) (p : Nat) (s' : St) (c' : Nat) (hg : get (run s ops) p = (s', some c')) : c' ≠ c := by
+  intro e; subst e
+  have hopen := (get_some hg).1
+  have hdead := C15_dead_stays_dead s c' hc h ops
+  have hlen : c' < (run s ops).conns.length := Nat.lt_of_lt_of_le hc (run_ext s ops).1
+  have := closed_stays_closed (get_ext hg) hlen hdead
+  rw [hopen] at this; cases this
+
+/-- a role change releases the connections and nothing else: the pool stays open (its health monitor ends only
+    with `Close`), the ban state is untouched -/
+theorem C20_role_change_keeps_pool (s : St) (p : Nat) (b : Bool) (pl : Pool) (hp : s.pools[p]? = some pl) :
+    ∃ pl', (setIsSlave s p b).pools[p]? = some pl' ∧ pl'.closed = pl.closed ∧ pl'.order = pl.order ∧
+      pl'.flag = pl.flag ∧ pl'.isSlave = b := by
+  unfold setIsSlave; rw [hp]; simp only
+  by_cases hb : pl.isSlave = b
+  · rw [if_pos hb]; exact ⟨pl, hp, rfl, rfl, rfl, hb⟩
+  · rw [if_neg hb]
+    have hl' : (setPool s p { pl with isSlave := b }).pools[p]? = some { pl with isSlave := b } := setPool_self_get _ hp
+    unfold release; rw [hl']; simp only
+    by_cases hc : pl.closed = true
+    · rw [if_pos hc]; exact ⟨_, hl', rfl, rfl, rfl, rfl⟩
+    · rw [if_neg hc]
+      refine ⟨{ pl with isSlave := b, active := [] }, ?_, rfl, rfl, rfl, rfl⟩
+      simp only [setPool, List.set_set]
+      rw [List.getElem?_set_self']; rw [hp]; rfl
 
 /-! ### C10 -/
 
